@@ -86,6 +86,8 @@ class Overlay:
                     d.setdefault('closurecall', {})[cur_sec[1]] = (text, buf_line)
                 elif cur_sec[0] == 'params':
                     d['params'] = (text.strip(), buf_line)
+                elif cur_sec[0] == 'beforecall':
+                    d.setdefault('beforecall', {})[cur_sec[1]] = (text, buf_line)
             buf = []
 
         for ln, line in enumerate(lines, 1):
@@ -148,6 +150,15 @@ class Overlay:
                     # `//@ loop N optional`: the N-th loop may be absent (a loop that only a
                     # candidate repair adds); its absence is not an extraction failure
                     self.fns[cur_fn].setdefault('optional_loops', set()).add(int(parts[0]))
+            elif d == 'beforecall':
+                # `//@ beforecall NAME K`: ghost statements in front of the STATEMENT that contains the K-th call
+                # `NAME(` / `.NAME(` of the function body (textual order). A proof hint that must precede a
+                # particular call (e.g. a trigger term for the callee's precondition) without depending on which
+                # statements happen to stand before it. A missing call is exit 2.
+                parts = arg.split()
+                if len(parts) != 2 or not parts[1].isdigit():
+                    raise Undecided('overlay %s:%d: beforecall needs NAME K' % (path, ln))
+                cur_sec = ('beforecall', (parts[0], int(parts[1])))
             elif d in ('global', 'prelude'):
                 cur_fn = None
                 cur_sec = (d,)
@@ -735,6 +746,11 @@ class FnRewriter:
         keys = pathmap
         while j < hi:
             t = toks[j]
+            if overlay_piece and in_body and self.ov.get('beforecall') and j in self._beforecall_map():
+                key_bc = self._beforecall_map().pop(j)
+                text, line = self.ov['beforecall'][key_bc]
+                overlay_piece('\n' + text, line - 1, 'beforecall_%s_%d' % key_bc)
+                self.__dict__.setdefault('_beforecall_used', set()).add(key_bc)
             if overlay_piece and j in getattr(self, '_afterloop_at', {}):
                 n_aft = self._afterloop_at.pop(j)
                 text, line = self.ov['afterloop'][n_aft]
@@ -1470,6 +1486,54 @@ class FnRewriter:
         return lets
 
     # ---- R3 helpers (for_each) ------------------------------------------
+    def _beforecall_map(self):
+        """token index of a statement start -> (NAME, K) for every `//@ beforecall NAME K` section."""
+        if hasattr(self, '_bc_map'):
+            return self._bc_map
+        toks = self.sf.toks
+        lo, hi = self.bo + 1, self.e
+        counts = {}
+        res = {}
+        want = self.ov.get('beforecall', {})
+        j = lo
+        while j < hi:
+            t = toks[j]
+            if t.kind == 'ident' and any(t.text == nm for nm, _ in want):
+                q = j + 1
+                while q < hi and toks[q].kind in ('ws', 'comment'):
+                    q += 1
+                if q < hi and toks[q].kind == 'punct' and toks[q].text == '(':
+                    counts[t.text] = counts.get(t.text, 0) + 1
+                    key = (t.text, counts[t.text])
+                    if key in want:
+                        # walk left to the start of the enclosing statement
+                        k = j - 1
+                        depth = 0
+                        while k >= lo:
+                            tk = toks[k]
+                            if tk.kind == 'punct' and tk.text in ')]':
+                                depth += 1
+                            elif tk.kind == 'punct' and tk.text in '([':
+                                depth -= 1
+                                if depth < 0:
+                                    depth = 0    # the call sits inside an argument list: keep walking left
+                            elif tk.kind == 'punct' and tk.text == '}' and depth == 0:
+                                break
+                            elif tk.kind == 'punct' and tk.text in '{;' and depth == 0:
+                                break
+                            k -= 1
+                        st = k + 1
+                        while st < j and toks[st].kind in ('ws', 'comment'):
+                            st += 1
+                        res[st] = key
+            j += 1
+        missing = [k for k in want if k not in res.values()]
+        if missing:
+            raise Undecided('%s: overlay names call `%s %d` but the function has no such call (lost anchor)'
+                            % (self.fnkey, missing[0][0], missing[0][1]))
+        self._bc_map = res
+        return res
+
     def _stmt_start(self, j, lo):
         """toks[j] is the first token of a statement / tail expression."""
         toks = self.sf.toks
